@@ -107,6 +107,26 @@ def mutate_rules(rng, rules, nres):
     return rules, what
 
 
+def invalid_tok(rng, res, nres):
+    """a rule IsValidRule rejects: negative threshold, empty Resource, associated with empty RefResource, undefined RelationStrategy"""
+    k = rng.randrange(4)
+    thr, iv = fb(rng.choice([0.0, 1.0, 2.0])), rng.choice([0, 1000, 3000])
+    if k == 0:
+        return f"{res},{fb(rng.choice([-1.0, -0.5, -1e-300]))},{iv},-"
+    if k == 1:
+        return f"_,{thr},{iv},-"
+    if k == 2:
+        return f"{res},{thr},{iv},_"
+    return f"{res},{thr},{iv},?"
+
+
+def with_invalid(rng, toks, res, nres, p=0.25):
+    toks = list(toks)
+    while rng.random() < p:
+        toks.insert(rng.randrange(len(toks) + 1), invalid_tok(rng, res, nres))
+    return toks
+
+
 def gen_rules(rng, force_region):
     nres = rng.choice([1, 2, 2, 3, 4])
     rules = []
@@ -147,7 +167,8 @@ def gen_case(rng, cid, force_region=None):
     nreloads = 0
     base = T0 + rng.choice([0, 1, 499, 500, 9999, 10000, rng.randint(0, 10 ** 9), rng.randint(0, 10 ** 5) * 500, rng.randint(0, 10 ** 4) * 10000 - 1])
     now = base
-    ops = [f"clock {now}", "load %d %s" % (len(rules), " ".join(rule_tok(r) for r in rules))]
+    first_toks = with_invalid(rng, [rule_tok(r) for r in rules], rules[0][0], nres, p=0.08)
+    ops = [f"clock {now}", "load %d %s" % (len(first_toks), " ".join(first_toks))]
     geoms = [geom(r[2]) for r in rules if len(r) == 4] or [geom(0)]
     kinds = []
     resources = list(range(1, nres + 1))
@@ -162,9 +183,27 @@ def gen_case(rng, cid, force_region=None):
         _, n, L, Iv = rng.choice(geoms)
         if nreloads < 4 and rng.random() < reload_p:
             rules, what = mutate_rules(rng, rules, nres)
-            kinds.append(what)
             nreloads += 1
-            ops.append("load %d %s" % (len(rules), " ".join(rule_tok(r) for r in rules)))
+            if rng.random() < 0.45:
+                # flow.LoadRulesOfResource: the (mutated) rules of one resource, sometimes with invalid rules / rules of another
+                # resource mixed in, sometimes an empty list (clear)
+                tr = rng.choice(rules)[0]
+                mine = [r for r in rules if r[0] == tr]
+                if rng.random() < 0.12 and len(rules) > len(mine):
+                    toks, what = [], "loadres-clear"
+                    rules = [r for r in rules if r[0] != tr]
+                else:
+                    toks = with_invalid(rng, [rule_tok(r) for r in mine], tr, nres, p=0.35)
+                    if rng.random() < 0.2:
+                        other = [r for r in rules if r[0] != tr]
+                        toks.insert(rng.randrange(len(toks) + 1), rule_tok(rng.choice(other)) if other else f"{tr % (nres + 1) + 1},{fb(1.0)},0,-")
+                    what = "loadres:" + what
+                    rules = [r for r in rules if r[0] != tr] + mine
+                ops.append("loadres %d %d %s" % (tr, len(toks), " ".join(toks)))
+            else:
+                toks = with_invalid(rng, [rule_tok(r) for r in rules], rules[0][0], nres, p=0.15)
+                ops.append("load %d %s" % (len(toks), " ".join(toks)))
+            kinds.append(what)
             geoms = [geom(r[2]) for r in rules if len(r) == 4] or [geom(0)]
             if all(r is not focus for r in rules):
                 focus = rules[rng.randrange(len(rules))]
@@ -181,11 +220,13 @@ def gen_case(rng, cid, force_region=None):
             tv = thr_val(focus[1])
             tb = int(tv) if 0 <= tv < 1e6 else 3
             b = rng.choice([1, 1, 1, 1, 1, 2, 2, 3, 0, tb, tb + 1, max(0, tb - 1), rng.randint(0, 6), 1000])
+            if b == 1 and rng.random() < 0.5:
+                b = "-"                   # plain api.Entry(res): no WithBatchCount, the default batch of 1
             ops.append(f"entry {res} {b}" + type_tok(rng, tprob, pref, res))
         elif x < 0.90:
             res = focus[0] if rng.random() < 0.7 else rng.choice(resources)
             k = rng.choice([2, 2, 2, 3, 3, 4])
-            bs = [rng.choice([1, 1, 1, 2, 3, 0]) for _ in range(k)]
+            bs = [rng.choice([1, 1, "-", "-", 2, 3, 0]) for _ in range(k)]
             sched = [i for i in range(k) for _ in (0, 1)]
             if rng.random() < 0.4:
                 sched = list(range(k)) + rng.sample(range(k), k)     # all checks, then all records
@@ -195,6 +236,7 @@ def gen_case(rng, cid, force_region=None):
         else:
             ops.append(f"sum {rng.choice(resources + [nres + 1])}")
     first = [x.split(",") for x in ops[1].split()[2:]]
+    first = [r for r in first if r[0] != "_" and r[3] not in ("_", "?")]
     tags = tuple("throttle" if len(r) == 5 else "%s%s" % (geom(int(r[2]))[0], "/assoc" if r[3] != "-" else "") for r in first)
     return Case(cid, ops, tags=tags + tuple("reload:" + k for k in kinds))
 
@@ -203,7 +245,7 @@ def typed_stats(cases, dist):
     """measure how the resource-type dimension is exercised (typed = carries api.WithResourceType(non-common))"""
     for c in cases:
         rules = [x.split(",") for x in c.ops[1].split()[2:]]
-        refs = {r[3] for r in rules if r[3] != "-"}
+        refs = {r[3] for r in rules if r[3] not in ("-", "_", "?")}
         typed, untyped = set(), set()
         for o in c.ops[2:]:
             t = o.split()
@@ -231,6 +273,11 @@ def gen(ctx, n):
         for t in c.tags:
             dist[t] = dist.get(t, 0) + 1
         rules = [x.split(",") for x in c.ops[1].split()[2:]]
+        rules = [r for r in rules if r[0] != "_" and r[3] not in ("_", "?")]
+        if any("entry" == o.split()[0] and o.split()[2] == "-" for o in c.ops):
+            dist["cases-with-plain-entries-(no-batch-option)"] = dist.get("cases-with-plain-entries-(no-batch-option)", 0) + 1
+        if any(o.startswith("loadres ") for o in c.ops):
+            dist["cases-with-loadres"] = dist.get("cases-with-loadres", 0) + 1
         if any(len(a) == 5 and len(b) == 4 and a[0] == b[0] for i, a in enumerate(rules) for b in rules[i + 1:]):
             dist["cases-with-throttle-before-reject-on-one-resource"] = dist.get("cases-with-throttle-before-reject-on-one-resource", 0) + 1
         if any(t.startswith("reload:") for t in c.tags):
